@@ -110,19 +110,27 @@ static inline void mon_break(void)
 #ifndef WITH_MON
   kt_over = 1; return;   /* writers of single items never emit a stop code */
 #endif
+  if (g_mon.t < 0 || g_mon.t >= MAXD) { g_mon.bad = 1; return; }
   if (!g_mon.indef[g_mon.t] || g_mon.t == 0) { g_mon.bad = 1; return; }
   if (g_mon.ismap[g_mon.t] && (g_mon.done[g_mon.t] & 1)) { g_mon.bad = 1; return; }
   g_mon.t--;
   mon_cascade();
 }
+_Bool nondet_bool(void);
+/* C16 units: the sink behind the encoder may fail at any operation (fault = nondeterminism) */
+#ifdef ENC_MAY_FAIL
+#define MAYFAIL() if (nondet_bool()) { g_exc = EXC_CborOutputException; return 0; }
+#else
+#define MAYFAIL()
+#endif
 static inline unsigned long acct(unsigned long n) { g_bytes += n; return n; }
 
-#define ENC_OP(name, T, body) unsigned long name(struct CdnsEncoder *this, T value) { if (g_exc) return 0; body }
-unsigned long CdnsEncoder__write_map_start(struct CdnsEncoder *this, unsigned long n) { if (g_exc) return 0; mon_open(n, 1, 0); return acct(HL(n)); }
-unsigned long CdnsEncoder__write_array_start(struct CdnsEncoder *this, unsigned long n) { if (g_exc) return 0; mon_open(n, 0, 0); return acct(HL(n)); }
-unsigned long CdnsEncoder__write_indef_array_start(struct CdnsEncoder *this) { if (g_exc) return 0; mon_open(0, 0, 1); return acct(1); }
+#define ENC_OP(name, T, body) unsigned long name(struct CdnsEncoder *this, T value) { if (g_exc) return 0; MAYFAIL() body }
+unsigned long CdnsEncoder__write_map_start(struct CdnsEncoder *this, unsigned long n) { if (g_exc) return 0; MAYFAIL() mon_open(n, 1, 0); return acct(HL(n)); }
+unsigned long CdnsEncoder__write_array_start(struct CdnsEncoder *this, unsigned long n) { if (g_exc) return 0; MAYFAIL() mon_open(n, 0, 0); return acct(HL(n)); }
+unsigned long CdnsEncoder__write_indef_array_start(struct CdnsEncoder *this) { if (g_exc) return 0; MAYFAIL() mon_open(0, 0, 1); return acct(1); }
 unsigned long CdnsEncoder__write_indef_map_start(struct CdnsEncoder *this) { if (g_exc) return 0; mon_open(0, 1, 1); return acct(1); }
-unsigned long CdnsEncoder__write_break(struct CdnsEncoder *this) { if (g_exc) return 0; mon_break(); return acct(1); }
+unsigned long CdnsEncoder__write_break(struct CdnsEncoder *this) { if (g_exc) return 0; MAYFAIL() mon_break(); return acct(1); }
 ENC_OP(CdnsEncoder__write__b, _Bool, mon_leaf(K_BOOL, value); return acct(1);)
 ENC_OP(CdnsEncoder__write__u8, unsigned char, mon_leaf(K_UINT, value); return acct(HL((unsigned long)value));)
 ENC_OP(CdnsEncoder__write__u16, unsigned short, mon_leaf(K_UINT, value); return acct(HL((unsigned long)value));)
@@ -139,6 +147,7 @@ unsigned long CdnsEncoder__write_bytestring__p_str(struct CdnsEncoder *this, cst
 unsigned long enc_nested(struct CdnsEncoder *enc, unsigned long tag)
 {
   if (g_exc) return 0;
+  MAYFAIL()
   unsigned long n; __CPROVER_assume(n >= 1 && n < (1UL << 40));
   mon_leaf(K_NESTED, tag);
   return acct(n);
